@@ -708,6 +708,11 @@ type scriptedStorage struct {
 	onResponse func()
 	create     *createCtl
 	prebuilt   *profiledb.StorageProfilesResponse
+	// afterUnlock, if set (before the requests start), is called with the
+	// number of the request after its response has been built.
+	afterUnlock func(n int)
+	// served are all responses in the order in which the requests arrived.
+	served []servedResp
 }
 
 // createCtl scripts one Storage.CreateAutoDevice call: it signals that the
@@ -766,13 +771,28 @@ func (s *scriptedStorage) CreateAutoDevice(_ context.Context, req *profiledb.Sto
 	return &profiledb.StorageCreateAutoDeviceResponse{Device: dev}, nil
 }
 
-func (s *scriptedStorage) Profiles(_ context.Context, req *profiledb.StorageProfilesRequest) (*profiledb.StorageProfilesResponse, error) {
+func (s *scriptedStorage) Profiles(ctx context.Context, req *profiledb.StorageProfilesRequest) (*profiledb.StorageProfilesResponse, error) {
+	resp, n, err := s.profilesLocked(ctx, req)
+	if s.afterUnlock != nil && err == nil {
+		// outside the storage's lock: may hold this response back while
+		// other requests are served
+		s.afterUnlock(n)
+	}
+	return resp, err
+}
+
+type servedResp struct {
+	resp *profiledb.StorageProfilesResponse
+	full bool
+}
+
+func (s *scriptedStorage) profilesLocked(_ context.Context, req *profiledb.StorageProfilesRequest) (*profiledb.StorageProfilesResponse, int, error) {
 	s.mu.Lock()
 	defer s.mu.Unlock()
 	s.calls++
 	s.reqs = append(s.reqs, req.SyncTime)
 	if s.fail {
-		return nil, errStorage
+		return nil, s.calls, errStorage
 	}
 	full := req.SyncTime.IsZero()
 	reqEpoch := 0
@@ -795,7 +815,8 @@ func (s *scriptedStorage) Profiles(_ context.Context, req *profiledb.StorageProf
 	if s.onResponse != nil {
 		s.onResponse()
 	}
-	return s.last, nil
+	s.served = append(s.served, servedResp{s.last, full})
+	return s.last, s.calls, nil
 }
 
 type failingStorage struct{ calls int }
